@@ -279,7 +279,29 @@ func tamperObjStmIndex(data []byte, rnd *vt.Rand) (out []byte, label string) {
 	}
 	consts := []int64{0, 1<<24 - 1, 1 << 24, 1<<24 + 1, 1<<31 - 1, 1<<32 - 1, int64(len(dec)), int64(len(dec)) + 1, int64(len(data)), -1, c.num}
 	var what []string
+	body := append([]byte{}, dec[first.Int:]...)
 	k := 1 + rnd.Intn(3)
+	if rnd.Intn(3) == 0 {
+		// a member turned into a stream (not allowed inside an object
+		// stream); its /Length names the member itself, another member, the
+		// container or is direct
+		k = 0
+		p := rnd.Intn(len(fields) / 2)
+		var length string
+		switch rnd.Intn(4) {
+		case 0:
+			length = fields[2*p] + " 0 R"
+		case 1:
+			length = fields[2*rnd.Intn(len(fields)/2)] + " 0 R"
+		case 2:
+			length = strconv.FormatInt(c.num, 10) + " 0 R"
+		default:
+			length = "3"
+		}
+		fields[2*p+1] = strconv.Itoa(len(body) + 1)
+		body = append(body, (" << /Length " + length + " >> stream\nabc\nendstream ")...)
+		what = append(what, fmt.Sprintf("member%d=stream(/Length %s)", p, length))
+	}
 	for i := 0; i < k; i++ {
 		p := rnd.Intn(len(fields))
 		v := consts[rnd.Intn(len(consts))]
@@ -291,7 +313,7 @@ func tamperObjStmIndex(data []byte, rnd *vt.Rand) (out []byte, label string) {
 		what = append(what, fmt.Sprintf("pair%d.%s=%d", p/2, kind, v))
 	}
 	head := strings.Join(fields, " ") + " "
-	ndec := append([]byte(head), dec[first.Int:]...)
+	ndec := append([]byte(head), body...)
 	comp := deflate(ndec)
 	nd := c.dict.Without("DecodeParms").
 		With("First", syntax.I(int64(len(head)))).
@@ -306,4 +328,187 @@ func tamperObjStmIndex(data []byte, rnd *vt.Rand) (out []byte, label string) {
 	b.WriteString("\nendstream")
 	b.Write(data[c.afterEnd:])
 	return b.Bytes(), "objstmindex " + strings.Join(what, " ")
+}
+
+// addPreamble puts 1..1000 junk bytes (with look-alikes of the header) in
+// front of a file whose header is at byte 0.  Offsets in a PDF file count
+// from the header, so the file stays what it was.
+func addPreamble(data []byte, rnd *vt.Rand) ([]byte, string) {
+	if !bytes.HasPrefix(data, []byte("%PDF-")) {
+		return nil, ""
+	}
+	n := []int{1, 2, 9, 100, 999, 1000}[rnd.Intn(6)]
+	if rnd.Intn(2) == 0 {
+		n = 1 + rnd.Intn(1000)
+	}
+	return append(junkPreamble(n, rnd.Uint64()), data...), fmt.Sprintf("preamble %d", n)
+}
+
+// addPrevCycle closes the /Prev chain of a file into a cycle of length 1..3:
+// the newest cross-reference section T gets a /Prev entry, up to two new
+// (empty) sections -- classic tables, possibly with /XRefStm, or
+// cross-reference streams -- are appended behind it, and the chain runs
+// startxref -> S2 -> S1 -> T -> S2 (T -> T for length 1).  The older sections
+// which T named before are no longer reached through T.
+func addPrevCycle(data []byte, rnd *vt.Rand) (out []byte, label string) {
+	defer func() {
+		if r := recover(); r != nil {
+			out, label = nil, ""
+		}
+	}()
+	if !bytes.Contains(data[:min(len(data), 1024)], []byte("%PDF-")) {
+		return nil, ""
+	}
+	h := headerOffset(data)
+	ts := syntax.Tokens(data)
+	objs := locate(ts)
+	tg := xrefTargets(data, ts, objs)
+	if len(tg) == 0 {
+		return nil, ""
+	}
+	T := tg[len(tg)-1]
+	// the dictionary of T: behind the keyword trailer, or the stream dictionary
+	open, tIsStream := -1, false
+	for i, t := range ts {
+		if t.Pos < T {
+			continue
+		}
+		if t.Pos == T && t.Kind == syntax.TokInt {
+			tIsStream = true
+			if i+3 < len(ts) && ts[i+3].Kind == syntax.TokDictOpen {
+				open = i + 3
+			}
+			break
+		}
+		if kw(t, "trailer") {
+			if i+1 < len(ts) && ts[i+1].Kind == syntax.TokDictOpen {
+				open = i + 1
+			}
+			break
+		}
+	}
+	if open < 0 {
+		return nil, ""
+	}
+	m := &mutator{data: data, toks: ts}
+	end := m.valueEnd(open)
+	if end <= open+1 || end > len(ts) || ts[end-1].Kind != syntax.TokDictClose {
+		return nil, ""
+	}
+	dict, _, err := syntax.ParseObject(data, ts[open].Pos)
+	if err != nil || dict.Kind != syntax.Dict {
+		return nil, ""
+	}
+	const ph = "0000000000"
+	type hole struct{ at, target int } // offset of a placeholder, index of the section it names (-1 = T)
+	var holes []hole
+	var b bytes.Buffer
+	// an existing /Prev of T is replaced, otherwise the entry is added
+	replaced := false
+	depth := 0
+	for i := open; i < end-1 && !replaced; i++ {
+		switch ts[i].Kind {
+		case syntax.TokDictOpen, syntax.TokArrayOpen:
+			depth++
+		case syntax.TokDictClose, syntax.TokArrayClose:
+			depth--
+		}
+		if depth == 1 && ts[i].Kind == syntax.TokName && string(ts[i].Bytes) == "Prev" && i+1 < end-1 {
+			ve := m.valueEnd(i + 1)
+			b.Write(data[:ts[i+1].Pos])
+			holes = append(holes, hole{at: b.Len()})
+			b.WriteString(ph)
+			b.Write(data[ts[ve-1].End:])
+			replaced = true
+		}
+	}
+	if !replaced {
+		b.Write(data[:ts[end-1].Pos])
+		b.WriteString(" /Prev ")
+		holes = append(holes, hole{at: b.Len()})
+		b.WriteString(ph + " ")
+		b.Write(data[ts[end-1].Pos:])
+	}
+	if b.Len() > 0 && b.Bytes()[b.Len()-1] != '\n' {
+		b.WriteByte('\n')
+	}
+	k := 1 + rnd.Intn(3)
+	size := dict.Lookup("Size")
+	maxNum := int64(0)
+	for _, o := range objs {
+		if o.num > maxNum && o.num < 1<<23 {
+			maxNum = o.num
+		}
+	}
+	if size.Kind != syntax.Int || size.Int <= maxNum || size.Int > 1<<23 {
+		size = syntax.I(maxNum + 8)
+	}
+	tr := syntax.D("Size", size)
+	for _, key := range []string{"Root", "Info", "ID", "Encrypt"} {
+		if v, ok := dict.Get(key); ok {
+			tr = tr.With(key, v)
+		}
+	}
+	var starts []int // absolute positions of the appended sections
+	kinds := ""
+	for j := 1; j < k; j++ {
+		starts = append(starts, b.Len())
+		target := j - 2 // S_j names S_(j-1); S_1 names T
+		switch c := rnd.Intn(3); {
+		case c == 0: // cross-reference stream which lists only itself
+			kinds += "s"
+			num := maxNum + int64(j)
+			off := b.Len() - h
+			row := []byte{1, byte(off >> 24), byte(off >> 16), byte(off >> 8), byte(off), 0}
+			d := tr.With("Type", syntax.N("XRef")).With("W", syntax.A(syntax.I(1), syntax.I(4), syntax.I(1))).
+				With("Index", syntax.A(syntax.I(num), syntax.I(1))).With("Size", syntax.I(max(size.Int, num+1))).With("Length", syntax.I(int64(len(row))))
+			fmt.Fprintf(&b, "%d 0 obj\n", num)
+			txt := serial.RenderValue(d, serial.Canonical{})
+			// the /Prev entry goes in front of the closing bracket
+			close := bytes.LastIndex(txt, []byte(">>"))
+			b.Write(txt[:close])
+			b.WriteString(" /Prev ")
+			holes = append(holes, hole{at: b.Len(), target: target})
+			b.WriteString(ph + " >>\nstream\n")
+			b.Write(row)
+			b.WriteString("\nendstream\nendobj\n")
+		default: // classic table, as a hybrid section if T is a stream
+			kinds += "t"
+			b.WriteString("xref\n0 1\n0000000000 65535 f \ntrailer\n")
+			txt := serial.RenderValue(tr, serial.Canonical{})
+			close := bytes.LastIndex(txt, []byte(">>"))
+			b.Write(txt[:close])
+			b.WriteString(" /Prev ")
+			holes = append(holes, hole{at: b.Len(), target: target})
+			b.WriteString(ph)
+			if tIsStream && c == 1 {
+				kinds += "h"
+				fmt.Fprintf(&b, " /XRefStm %d", T-h)
+			}
+			b.WriteString(" >>\n")
+		}
+	}
+	// T names the newest section (itself for a cycle of length 1)
+	holes[0].target = len(starts) - 1
+	out = b.Bytes()
+	for _, hl := range holes {
+		p := T
+		if hl.target >= 0 {
+			p = starts[hl.target]
+		}
+		if p-h <= 0 {
+			return nil, ""
+		}
+		copy(out[hl.at:hl.at+len(ph)], fmt.Sprintf("%010d", p-h))
+	}
+	last := T
+	if len(starts) > 0 {
+		last = starts[len(starts)-1]
+	}
+	out = append(out, fmt.Sprintf("startxref\n%d\n%%%%EOF\n", last-h)...)
+	tk := "table"
+	if tIsStream {
+		tk = "stream"
+	}
+	return out, fmt.Sprintf("prevcycle len=%d newest=%s appended=%q", k, tk, kinds)
 }
